@@ -36,6 +36,7 @@ pub const SC: u64 = 15; // sweep of our to_remote output of UC
 pub const UR: u64 = 16; // an OLD (revoked) counterparty commitment, number 5, no HTLC (breach)
 pub const SR: u64 = 17; // sweep of our to_remote output of UR
 pub const JR: u64 = 18; // justice spend of the counterparty's to_local output of UR
+pub const UN: u64 = 19; // counterparty commitment that pays us nothing (no to_remote output): nothing of ours to sweep
 pub const X0: u64 = 20; // unrelated transactions X0..X0+9
 
 /// Deliver a block connection the way the real front end does: compact proof, or — when requested, or
@@ -51,7 +52,7 @@ pub fn deliver_add(tracker: &mut ChainTracker<ChainMonitor>, block: &Block, want
     let fp = !zero && proof.verify(h + 1, &block.header, None, &tip.1, &watches, &secp).is_err();
     if want_streamed || fp {
         let ext = TxoProof { attestations: proof.attestations.clone(), proof: ProofType::ExternalBlock() };
-        tracker.block_chunk(block.block_hash(), 0, &serialize(block)).unwrap();
+        stream_block(tracker, block);
         tracker.add_block(block.header, ext).map(|_| fp)
     } else {
         tracker.add_block(block.header, proof).map(|_| fp)
@@ -69,10 +70,26 @@ pub fn deliver_remove(tracker: &mut ChainTracker<ChainMonitor>, block: &Block, w
     let fp = !zero && proof.verify(h, &block.header, None, &prev.1, &watches, &secp).is_err();
     if want_streamed || fp {
         let ext = TxoProof { attestations: proof.attestations.clone(), proof: ProofType::ExternalBlock() };
-        tracker.block_chunk(block.block_hash(), 0, &serialize(block)).unwrap();
+        stream_block(tracker, block);
         tracker.remove_block(ext, prev).map(|_| fp)
     } else {
         tracker.remove_block(proof, prev).map(|_| fp)
+    }
+}
+
+/// stream a block in one to three chunks (split points derived from the block hash)
+pub fn stream_block(tracker: &mut ChainTracker<ChainMonitor>, block: &Block) {
+    let bytes = serialize(block);
+    let hash = block.block_hash();
+    let hb = hash.to_byte_array();
+    let pieces = 1 + (hb[0] % 3) as usize;
+    let mut cuts: Vec<usize> = (1..pieces).map(|i| (bytes.len() * i / pieces + (hb[i] as usize % 7)).min(bytes.len() - 1).max(1)).collect();
+    cuts.push(bytes.len());
+    let mut off = 0usize;
+    for c in cuts {
+        if c <= off { continue; }
+        tracker.block_chunk(hash, off as u32, &bytes[off..c]).unwrap();
+        off = c;
     }
 }
 
@@ -129,7 +146,7 @@ pub struct World {
     pub base_height: u32,
     pub filter_false_positives: u32,
     /// per closing tx: (index of the output the harness built as ours, HTLC output indices it built)
-    pub built: BTreeMap<u64, (u32, Vec<u32>)>,
+    pub built: BTreeMap<u64, (Option<u32>, Vec<u32>)>,
     /// spender id -> [(vout of the closing tx it spends, input index)] for the tracked non-ours outputs
     pub htlc_spends: BTreeMap<u64, Vec<(u32, u32)>>,
     pub ctype: String,
@@ -201,6 +218,13 @@ impl World {
             .transaction
             .clone();
         let uc_our = uc.output.iter().position(|o| o.value.to_sat() == uc_to_holder).expect("to_remote output") as u32;
+        let un = node
+            .with_channel(&channel_id, |chan| Ok(chan.make_counterparty_commitment_tx(&cp_point, commit_num, feerate, 0, 2_975_000, vec![])))
+            .unwrap()
+            .trust()
+            .built_transaction()
+            .transaction
+            .clone();
         let old_point = lightning_signer::util::test_utils::key::make_test_pubkey(13);
         let (ur_to_holder, ur_to_cp) = (1_200_000u64, 1_780_000u64);
         let ur = node
@@ -235,6 +259,7 @@ impl World {
         txs.insert(SC, mk_tx(vec![OutPoint::new(uc.compute_txid(), uc_our)], 1, 24));
         txs.insert(UC, uc);
         txs.insert(UR, ur);
+        txs.insert(UN, un);
         txs.insert(SR, sr);
         txs.insert(JR, jr);
         txs.insert(S, mk_tx(vec![OutPoint::new(utxid, our)], 1, 15));
@@ -257,7 +282,7 @@ impl World {
             ids.insert(t.compute_txid(), *k);
         }
         let base_height = node.get_tracker().height();
-        World { node, channel_id, funding_outpoint, txs, ids, blocks: vec![], cb: 0, base_height, filter_false_positives: 0, built: BTreeMap::from([(U, (our, vec![h1.min(h2), h1.max(h2)])), (UC, (uc_our, vec![])), (UR, (ur_our, vec![ur_local]))]), htlc_spends: BTreeMap::from([(T1, vec![(h1, 0)]), (T2, vec![(h2, 0)]), (T12, vec![(h1, 0), (h2, 1)]), (JR, vec![(ur_local, 0)])]), ctype: ct.to_string() }
+        World { node, channel_id, funding_outpoint, txs, ids, blocks: vec![], cb: 0, base_height, filter_false_positives: 0, built: BTreeMap::from([(U, (Some(our), vec![h1.min(h2), h1.max(h2)])), (UC, (Some(uc_our), vec![])), (UR, (Some(ur_our), vec![ur_local])), (UN, (None, vec![]))]), htlc_spends: BTreeMap::from([(T1, vec![(h1, 0)]), (T2, vec![(h2, 0)]), (T12, vec![(h1, 0), (h2, 1)]), (JR, vec![(ur_local, 0)])]), ctype: ct.to_string() }
     }
 
     /// tx tokens `T<id>:<inputs>:<nOut>:<kind>`; the kind of the two closing transactions comes from
@@ -278,8 +303,9 @@ impl World {
             // is compared with it after every block that confirms one of them (`our-output-not-recognised`)
             let mut kinds: BTreeMap<u64, String> = BTreeMap::new();
             kinds.insert(M, "p".to_string());
-            for id in [U, UC, UR] {
+            for id in [U, UC, UR, UN] {
                 let (our, hs) = w.built[&id].clone();
+                let our = our.map(|x| x.to_string()).unwrap_or("-".into());
                 let hs: Vec<String> = hs.iter().map(|x| x.to_string()).collect();
                 kinds.insert(id, format!("c{}/{}", our, if hs.is_empty() { "-".into() } else { hs.join(",") }));
             }
@@ -472,7 +498,7 @@ impl World {
         let r = catch_unwind(AssertUnwindSafe(|| {
             if streamed {
                 let ext = TxoProof { attestations: proof.attestations.clone(), proof: ProofType::ExternalBlock() };
-                tracker.block_chunk(block.block_hash(), 0, &serialize(&block)).unwrap();
+                stream_block(&mut tracker, &block);
                 tracker.add_block(block.header, ext)
             } else {
                 tracker.add_block(block.header, proof)
@@ -543,7 +569,7 @@ pub fn expected_view(w: &World, chain: &[Vec<u64>]) -> String {
     let fh = height_of(F);
     let ds = if fh.is_some() { None } else { [height_of(D), height_of(D2)].into_iter().flatten().min() };
     let mc = height_of(M);
-    let close = [U, UC, UR].into_iter().find(|c| height_of(*c).is_some());
+    let close = [U, UC, UR, UN].into_iter().find(|c| height_of(*c).is_some());
     let uc = close.and_then(|c| height_of(c));
     let our_sweeper = |c: u64| if c == U { S } else if c == UC { SC } else { SR };
     let second_spender = |t: u64, idx: u32| match (t, idx) { (T1, 0) => Some(V1), (T2, 0) => Some(V2), (T12, 0) => Some(V12A), (T12, 1) => Some(V12B), _ => None };
@@ -556,8 +582,8 @@ pub fn expected_view(w: &World, chain: &[Vec<u64>]) -> String {
     if let Some(c) = close {
         let (our, htlcs) = w.built[&c].clone();
         let ch = uc.unwrap();
-        let our_spent_h = height_of(our_sweeper(c));
-        tracked.push(((c, our), false));
+        let our_spent_h = match our { Some(_) => height_of(our_sweeper(c)), None => Some(ch) };
+        if let Some(o) = our { tracked.push(((c, o), false)); }
         let mut flags = Vec::new();
         let mut needed: Vec<Option<u64>> = vec![Some(ch), our_spent_h]; // heights that must all exist for "swept"
         for hv in &htlcs {
@@ -582,8 +608,8 @@ pub fn expected_view(w: &World, chain: &[Vec<u64>]) -> String {
         }
         let j = |v: Vec<String>, sep: &str| if v.is_empty() { "-".to_string() } else { v.join(sep) };
         co = format!(
-            "{}/{}+{}/{}/{}/{}",
-            c, our, if our_spent_h.is_some() { 1 } else { 0 },
+            "{}/{}/{}/{}/{}",
+            c, match our { Some(o) => format!("{}+{}", o, if our_spent_h.is_some() { 1 } else { 0 }), None => "-".to_string() },
             j(htlcs.iter().map(|x| x.to_string()).collect(), ","),
             j(flags.iter().map(|b| if *b { "1".to_string() } else { "0".to_string() }).collect(), ","),
             j(second, ";")
